@@ -41,7 +41,12 @@ def c20_canon(s):
 CONFIG = dict(
     modules=["SigModel.Props.C20"],
     theorems=["SigModel.Bus." + t for t in [
-        "C20_facts",
+        "C20_facts", "C20_subject_kinds_disjoint",
+        "C20_no_duplicates", "C20_only_while_registered", "C20_other_subjects", "C20_nothing_after_unregister",
+        "C20_order_partial", "C20_order_prompt", "C20_order_counterexample",
+        "C20_conservation", "C20_delivery_partial", "C20_delivery_counterexample",
+        "C20_publish_never_blocks", "C20_register_never_blocks", "C20_dispatcher_never_blocked", "C20_progress",
+        "C20_admits_partial", "C20_admits_widen", "C20_admits_recorded",
     ]],
     generated=["Bus"],
     harness=dict(pkg="signaling", test="TestVerifC20"),
@@ -54,13 +59,44 @@ CONFIG = dict(
          "step with the model; concurrent runs of 6-8 goroutines x 200-300 calls on 2-4 overlapping subjects judged by "
          "`admits`; a deterministic case is non-trivial with >= 3 deliveries, a concurrent one with >= 20; distinct = "
          "distinct op lists",
-    trusted_base=[],
-    assumptions=[],
+    trusted_base=[
+        "Go runtime: mutexes, channels (a buffered channel of capacity n accepts a non-blocking send iff fewer than n "
+        "elements are queued), `select`, goroutine scheduling = arbitrary interleaving of the modelled critical sections",
+        "encoding/json round trip of AsyncMessage and base64 subject encoding (the harness compares payloads; the model "
+        "identifies a message with its publication index)",
+        "the index a publication gets is taken by a harness wrapper that serialises Publish calls around "
+        "LoopbackNatsClient.Publish (which itself holds the client mutex for the whole call)",
+    ],
+    assumptions=[
+        "atomicity at the granularity of the mutex-protected sections named at every action of Model/Bus.lean "
+        "(publish, dispatch, send, take, snap, pick, call, finish, exit, register, unregister); the shape of those "
+        "sections is re-extracted from the source on every run (Generated/Bus.lean, C20_facts)",
+        "'before unregistration began' is proved for listeners that stay registered (C20_delivery_partial); an "
+        "asynchronous bus drops what is still queued when the listener leaves (C20_delivery_counterexample)",
+        "publication order at a listener is proved for executions in which no callback is entered for a listener removed "
+        "in the meantime (C20_order_partial, C20_order_prompt); the window between the registration check under the "
+        "mutex and the callback entry allows an overtake after leave+join (C20_order_counterexample) - not reproducible "
+        "by the harness, a recorded occurrence would be reported as violated:out-of-order-delivery",
+        "conservation (clause E of admits) only below the slow-consumer threshold: runs in which the loopback client "
+        "logged 'Slow consumer' are judged on the safety clauses only",
+        "real NATS server, Close() of the whole bus and failing Subscribe calls are not modelled",
+    ],
 )
 
 MANIFEST = dict(
-    text="(in progress)",
-    note="",
+    text="Machine-checked Lean 4 theorems about a small-step model of the event bus (publication log, loopback FIFO "
+         "with dispatcher snapshot + non-blocking sends, bounded channel and receiver goroutine per subject, listener "
+         "iteration over a snapshot with the mutex released around callbacks, register/unregister with last-one-closes), "
+         "for every interleaving of its atomic actions: no duplicate delivery, every delivery backed by a registration on "
+         "that subject and published before any later unregistration returned, per-subject publication order (for "
+         "executions without a stale callback; counter-example otherwise), conservation and delivery at quiescence for "
+         "listeners that stay registered, publishers/registrations/dispatcher never wait, and every recorded history is "
+         "accepted by the executable spec `admits` (monotone under widening of call intervals). Tied to the code by "
+         "extracted locking skeletons/constants and by running the real asyncEventsNats + LoopbackNatsClient: deterministic "
+         "schedules compared step by step with the model, concurrent goroutine runs judged by `admits`.",
+    note="Trusted: Lean kernel, extractor, harness, Go runtime semantics of mutex/channel. Partial: order needs 'no stale "
+         "callback' (window between check and callback entry); messages queued when a listener unregisters are lost for it. "
+         "Defect found and fixed: duplicate delivery when a listener re-registers during the iteration (6a5372c).",
     technique="Lean 4 proof (inductive invariants of a small-step model, all interleavings) + regenerated facts + "
               "differential correspondence / trace validation",
 )
